@@ -66,10 +66,22 @@ func VerifC07Lists() {
 		maxLen = 3
 	}
 	which := vrt_Choose("type", 3)
-	n := vrt_Choose("listLen", maxLen+1)
+	// list lengths 0..maxLen, and long lists (the count is one byte on the wire: byte-typed offset
+	// or length arithmetic wraps only there)
+	lens := []int{0, 1, 2}
+	if maxLen > 2 {
+		lens = append(lens, 3)
+	}
+	lens = append(lens, 31, 32, 127, 255)
+	n := lens[vrt_Choose("listLen", len(lens))]
+	nameLen := 2
+	if n > 3 && vrt_Choose("longName", 2) == 1 {
+		nameLen = 49
+	}
+	vrt_Cover("long-list", n == 255)
 	switch which {
 	case 0:
-		v := &P0x9212{FileNameLen: 2, FileName: vrt_String("name", 2), FileType: vrt_Byte("fileType"), UploadResult: vrt_Byte("result")}
+		v := &P0x9212{FileNameLen: byte(nameLen), FileName: vrt_String("name", nameLen), FileType: vrt_Byte("fileType"), UploadResult: vrt_Byte("result")}
 		for i := 0; i < n; i++ {
 			v.P0x9212RetransmitPacketList = append(v.P0x9212RetransmitPacketList, P0x9212RetransmitPacket{DataOffset: vrt_U32("off"), DataLength: vrt_U32("len")})
 		}
